@@ -224,6 +224,8 @@ def fault_list(case, positions=None):
     out = [(None, None)]
     for nd in case["nodes"]:
         for p in pos:
+            if case.get("graph") and nd["kind"] != "source" and p >= n:
+                continue        # real plugins / loaders have no hook "at the end"
             out.append(({"node": nd["name"], "pos": p}, None))
     for d, c in case["savers"].items():
         for i in range(c):
@@ -292,16 +294,22 @@ WITNESSES = {
 
 def system_factory(case):
     from harness import c06_net
+    if case.get("graph"):
+        from harness import c06_ctx
+        return lambda sched: c06_ctx.ContextSystem(sched, case)
     return lambda sched: c06_net.NetSystem(sched, case)
 
 
 def net_of(case):
     """(tokens of the Coq network, thread names) of the processor strax builds for `case`"""
-    from harness import c06_net
     from harness.sched.core import Scheduler
     with Scheduler() as s:
-        sysm = c06_net.NetSystem(s, case)
-        return sysm.model_net(), [t.name for t in s.threads]
+        sysm = system_factory(case)(s)
+        try:
+            return sysm.model_net(), [t.name for t in s.threads]
+        finally:
+            if hasattr(sysm, "close"):
+                sysm.close()
 
 
 def model_line(net, schedule):
@@ -413,6 +421,8 @@ def exec_task(task):
     from harness.sched.core import pool_threads
     t0 = time.time()
     case = task["case"]
+    if task["kind"] == "os":
+        return exec_os_task(task)
     fac = system_factory(case)
     net, names = net_of(case)
     results = []
@@ -426,7 +436,17 @@ def exec_task(task):
         for r in random_walks(fac, rng, task["n"], sticky=task.get("sticky", 0.0)):
             results.append(r)
     elif task["kind"] == "replay":
-        results.append(run_schedule(fac, task["schedule"], extend=lambda en, last: en[0]))
+        # follow the recorded schedule as far as it is executable (a recorded thread that is not enabled any
+        # more is skipped), then run the lowest enabled thread until nothing is enabled
+        todo = list(task["schedule"])
+
+        def guided(en, last):
+            while todo:
+                t = todo.pop(0)
+                if t in en:
+                    return t
+            return en[0]
+        results.append(run_schedule(fac, [], extend=guided))
     out = {"kind": task["kind"], "case": case, "runs": len(results), "steps": sum(len(r.schedule) for r in results),
            "truncated": truncated, "outcomes": {}, "disagreements": [], "failures": [], "nontrivial": 0,
            "codes": {}, "names": names, "net": net}
@@ -459,6 +479,74 @@ def exec_task(task):
                          "caller": (r.system_info or {}).get("result")}
     npool, busy = pool_threads()
     out["threads_left"] = threading.active_count() - 1 - npool + busy
+    out["wall"] = round(time.time() - t0, 2)
+    return out
+
+
+def os_failure(case, ob):
+    """The C06 predicate on one run under the real OS scheduler (observation of c06_ctx.os_run)."""
+    n = case["N"]
+    kind, etxt = ob["result"]
+    if ob["threads_left"]:
+        return "pipeline threads still alive after the call returned: %s" % ob["threads_left"]
+    fired = ob["fired"] or ob["consumer_fired"]
+    closing = bool(case.get("cfault") and case["cfault"]["close"])
+    if kind == "ok":
+        if ob["rows"] != list(range(n)):
+            return "the caller received chunks %s without an exception (the run has %d chunks)" % (ob["rows"], n)
+        if fired:
+            return "an exception was raised inside the pipeline but the call returned normally"
+        for sv in ob["savers"]:
+            if not sv["closed"] or sv["exception"] or sv["rows"] != n:
+                return "normal end but saver of %s is %s" % (sv["name"], sv)
+        for d, v in ob["stored"].items():
+            if v is not True:
+                return "normal end but %s is not stored (%s)" % (d, v)
+        return None
+    if kind == "err":
+        if "Timeout" in etxt:
+            return "the caller received a timeout (%s) instead of the original exception" % etxt
+        if closing and not ob["fired"]:
+            if not ob["outside"] and not ob["original"]:
+                return "closing the iterator raised %s" % etxt
+        elif not fired:
+            return "the caller received %s although nothing failed" % etxt
+        elif not ob["original"]:
+            return "the caller received [%s] instead of the original exception" % etxt
+    for sv in ob["savers"]:
+        if not sv["closed"]:
+            return "after the failure the saver of %s was not closed" % sv["name"]
+        if not sv["exception"] and sv["rows"] != n:
+            return "after the failure the saver of %s is closed without an exception but holds %d of %d chunks" % (
+                sv["name"], sv["rows"], n)
+        if sv["exception"] and ob["stored"].get(sv["name"]) is True:
+            return "the saver of %s recorded an exception but the data is reported as stored" % sv["name"]
+    return None
+
+
+def exec_os_task(task):
+    from harness import c06_ctx
+    t0 = time.time()
+    case = task["case"]
+    out = {"kind": "os", "case": case, "runs": 0, "steps": 0, "truncated": False, "outcomes": {}, "disagreements": [],
+           "failures": [], "nontrivial": 0, "codes": {}, "names": [], "net": None, "n_disagreements": 0,
+           "n_failures": 0, "threads_left": 0}
+    for rep in range(task["reps"]):
+        ob = c06_ctx.os_run(case, how=task.get("how", "iter"))
+        out["runs"] += 1
+        key = ob["result"][0] if ob["result"][0] != "err" else "err:" + ob["result"][1].split(":")[0]
+        out["codes"][key] = out["codes"].get(key, 0) + 1
+        out["outcomes"]["complete"] = out["outcomes"].get("complete", 0) + 1
+        if ob["fired"] or ob["consumer_fired"]:
+            out["nontrivial"] = 1
+        f = os_failure(case, ob)
+        if f:
+            out["n_failures"] += 1
+            if not out["failures"]:
+                out["failures"].append({"schedule": None, "what": f, "outcome": "os", "class": known_class(case, f),
+                                        "final": ob})
+        out["sample"] = {"case": case_tag(case), "how": task.get("how", "iter"), "caller": ob["result"],
+                         "savers": ob["savers"]}
     out["wall"] = round(time.time() - t0, 2)
     return out
 
@@ -556,7 +644,10 @@ def replay_witnesses(ctx):
         if not fn.endswith(".json"):
             continue
         w = json.load(open(os.path.join(d, fn)))
-        r = exec_task({"kind": "replay", "case": w["case"], "schedule": w["schedule"]})
+        import contextlib
+        import io
+        with contextlib.redirect_stdout(io.StringIO()):      # strax prints from the GeneratorExit branch
+            r = exec_task({"kind": "replay", "case": w["case"], "schedule": w["schedule"]})
         for dis in r["disagreements"]:
             ctx.violation("threaded", "model and implementation disagree on corpus witness %s: %s" % (fn, dis["what"]),
                           {"input": "corr:C06/threaded/corpus", "case": w["case"], "schedule": dis["schedule"]},
@@ -635,6 +726,77 @@ def unit_threaded(ctx):
                        "what": dis["what"]}, no_failing_input=True)
 
 
+def context_cases(ctx, big):
+    from harness import c06_ctx
+    C = c06_ctx.ctx_case
+    out = []
+    for lazy in (False, True):
+        for n in ((1, 2, 3) if big else (1, 2)):
+            cap = 1 + n % 2
+            base_specs = [("chain", ("c6top",), ()), ("chain", ("c6mid", "c6top"), ("c6src",)),
+                          ("fan", ("c6y",), ()), ("fan_side_first", ("c6x", "c6y"), ()), ("fan_post", ("c6y",), ())]
+            for graph, save, pre in base_specs:
+                base = C(graph, n, cap, lazy, save=save, preload=pre)
+                for fault, cfault in fault_list(base):
+                    out.append(with_fault(base, fault, cfault))
+    return out
+
+
+def unit_context(ctx):
+    big = ctx.thorough or ctx.escalated()
+    rng = ctx.rng
+    cases = context_cases(ctx, big)
+    tasks = []
+    for c in cases:
+        # controlled schedules through Context.get_iter
+        if big or rng.random() < 0.5:
+            tasks.append({"kind": "dfs", "case": c, "bound": 2, "max_runs": 300 if big else 25, "weight": 400})
+        tasks.append({"kind": "random", "case": c, "n": 60 if big else 6, "seed": rng.getrandbits(48),
+                      "sticky": rng.choice([0.0, 0.5]), "weight": 100})
+        # real OS schedules, also with a worker pool (lazy mode is switched off there by the processor)
+        tasks.append({"kind": "os", "case": c, "reps": 6 if big else 2, "how": rng.choice(["iter", "array"]),
+                      "weight": 50})
+        if not c["lazy"]:
+            c2 = json.loads(json.dumps(c))
+            c2["max_workers"] = 2
+            c2["shape"] += "-pool"
+            tasks.append({"kind": "os", "case": c2, "reps": 6 if big else 2, "how": rng.choice(["iter", "array"]),
+                          "weight": 50})
+    t0 = time.time()
+    results = run_tasks(tasks)
+    ctx.notes.append("context: wall time %.1fs for %d tasks" % (time.time() - t0, len(tasks)))
+    dist = {}
+    n_eval = n_nontriv = 0
+    disagreeing = []
+    for t, r in zip(tasks, results):
+        c = r["case"]
+        for key in ("kind." + r["kind"], "shape." + c["shape"], "lazy" if c["lazy"] else "eager",
+                    "pool" if c.get("max_workers") else "nopool"):
+            dist[key] = dist.get(key, 0) + r["runs"]
+        for k, v in r["codes"].items():
+            dist["caller." + k] = dist.get("caller." + k, 0) + v
+        for k, v in r["outcomes"].items():
+            dist["outcome." + k] = dist.get("outcome." + k, 0) + v
+        n_eval += r["runs"]
+        n_nontriv += r["nontrivial"]
+        if r.get("sample") and r["kind"] == "os" and len(ctx.coverage["samples"]) < 12 and (c["fault"] or c["cfault"]):
+            ctx.sample(r["sample"])
+        for f in r["failures"]:
+            ctx.violation("context", "Context.get_iter with ThreadedMailboxProcessor violates C06 (%s, %s): %s"
+                          % (case_tag(c), "OS schedule" if r["kind"] == "os" else "controlled schedule", f["what"]),
+                          {"input": {"case": c, "schedule": f["schedule"], "how": t.get("how")}, "outcome": f["outcome"],
+                           "final": f["final"]})
+        if r["n_disagreements"]:
+            disagreeing.append(r)
+    ctx.count("context", n_eval, n_nontriv, dist)
+    for r in disagreeing[:3]:
+        dis = r["disagreements"][0]
+        ctx.violation("context", "model and implementation disagree (%s, %d of %d schedules): %s"
+                      % (case_tag(r["case"]), r["n_disagreements"], r["runs"], dis["what"]),
+                      {"input": "corr:C06/context/%s" % r["kind"], "case": r["case"], "schedule": dis["schedule"],
+                       "what": dis["what"]}, no_failing_input=True)
+
+
 def search_failing_input(ctx, case, still_known, budget=1500):
     """model and implementation disagree on `case`: look for a schedule on which the implementation violates
     the property itself — this case, its other failure positions and one more / one fewer chunk"""
@@ -672,7 +834,12 @@ def run(ctx):
         "failure at every (thread, chunk) position of every stage kind (source, loader, plugin, multi-output plugin, "
         "saver, consumer exception, consumer close) and the failure-free run; schedules: depth-first with preemption "
         "bound 2 (capped) for <= 3 stages, seeded random walks for all; non-trivial = a failure fired and some thread "
-        "had to wait; distinct by (case, schedule).")
+        "had to wait; distinct by (case, schedule). "
+        "context: the real Context.get_iter / get_array (relay of context.py) with real strax plugins (chain of three, "
+        "multi-output plugin in both orders of provides, stage after the fan-out, loader-fed source) and a real "
+        "DataDirectory, failures in compute / FileSaver._save_chunk / the backend's _read_chunk / apply_data_function / "
+        "closing the iterator: controlled schedules compared with the model, and real OS schedules with "
+        "sys.setswitchinterval(1e-6), with and without max_workers=2 (futures); non-trivial = a failure fired.")
     ctx.assumptions.append(
         "lock-free code between two lock regions of mailbox.py touches only thread-local state, so it is merged into "
         "the preceding lock region: one scheduler step = one lock region + the lock-free code up to the next lock "
@@ -680,6 +847,7 @@ def run(ctx):
     ctx.assumptions.append("CPython RLock/Condition behave as documented; timeouts are represented by deadlock")
     unit_post_office(ctx)
     unit_threaded(ctx)
+    unit_context(ctx)
 
 
 def replay(ctx, obj):
@@ -688,7 +856,19 @@ def replay(ctx, obj):
             or "schedule" in r:
         inp = r["input"] if isinstance(r.get("input"), dict) else r
         case, schedule = inp["case"], inp["schedule"]
-        res = exec_task({"kind": "replay", "case": case, "schedule": schedule})
+        if schedule is None:
+            # a failure seen under the real OS scheduler: re-sample
+            _worker_init()
+            res = exec_os_task({"kind": "os", "case": case, "reps": 20, "how": inp.get("how") or "iter"})
+            sys.stdout = sys.__stdout__
+            print("case:", case_tag(case), "| 20 runs under the OS scheduler:", res["codes"])
+            for f in res["failures"]:
+                print("property FAILS:", f["what"])
+            return 1 if res["failures"] else 0
+        import contextlib
+        import io
+        with contextlib.redirect_stdout(io.StringIO()):
+            res = exec_task({"kind": "replay", "case": case, "schedule": schedule})
         print("case:", case_tag(case))
         print("threads:", res["names"], "schedule:", schedule)
         print("model comparison:", res["disagreements"][0]["what"] if res["disagreements"] else "agrees")
